@@ -272,7 +272,7 @@ func genFaultCase(r *rand.Rand, cfg Cfg) Case {
 		live[uni[i]] = uint64(r.Intn(3))
 		ops = append(ops, opIns(0, uni[i], live[uni[i]]))
 	}
-	ops = append(ops, "root 0 0", "load 0 0")
+	ops = append(ops, "root 0 0", "load 0 0", "load 0 2") // slot 2 keeps the first version: the old side of diffs
 	nroot := 1
 	for i := 0; i < 10+r.Intn(25); i++ {
 		if r.Intn(6) == 0 { // back to a fully persisted tree; otherwise partly dirty
@@ -289,7 +289,17 @@ func genFaultCase(r *rand.Rand, cfg Cfg) Case {
 		}
 		k := pick(r, uni)
 		var op string
-		switch r.Intn(9) {
+		switch r.Intn(12) {
+		case 9:
+			op = "diff 2 0"
+		case 10:
+			op = "diff 0 2"
+		case 11:
+			mv := ""
+			for j := 0; j < 1+r.Intn(6); j++ {
+				mv += pick(r, []string{"f", "f", "b"})
+			}
+			op = fmt.Sprintf("cwalk 0 %d %s", k, mv)
 		case 0, 1, 2:
 			v := uint64(r.Intn(3))
 			op = opIns(0, k, v)
@@ -340,7 +350,7 @@ func famFaults(f *FamCtx) {
 		}
 		return ""
 	}
-	f.Report.Rule = "persisted and partly modified trees without cache; Insert (new / update / equal), Delete, Get, Iter, SeekIter, Clone run with the i-th Persist.Load (i < 8) or the i-th KeyCompare call (i < 30) of that operation failing; if the call returns an error the contents, size and height are re-read through the fault-free view (struct keys add the Marshal callback as a third fault kind) and must be unchanged, then the same call is retried and its result compared with the model; a panic (validateNode panics on a failing comparison) ends the case; non-trivial = reached height >= 1 and changed height"
+	f.Report.Rule = "persisted and partly modified trees without cache; Insert (new / update / equal), Delete, Get, Iter, SeekIter, Clone, DiffIter against the first version (both directions) and cursor walks (Ceil, Forward, Backward) run with the i-th Persist.Load (i < 8) or the i-th KeyCompare call (i < 30) of that operation failing; if the call returns an error the contents, size and height are re-read through the fault-free view (struct keys add the Marshal callback as a third fault kind) and must be unchanged, then the same call is retried and its result compared with the model; a panic (validateNode panics on a failing comparison) ends the case; non-trivial = reached height >= 1 and changed height"
 	rn := faultRunner
 	f.Gen = func() Case {
 		cfg := RandCfg(f.Rand)
